@@ -125,7 +125,10 @@ Defined(name, ns, arg) ==
       [] OTHER -> TRUE
 
 (* ---- callback operations (C08): what callback number k (0-based) is given *)
-CbOps == {"generate", "map", "zip", "zipx", "fold", "clone", "default", "iter_fold", "iter_rfold", "iter_clone"}
+CbOps == {"generate", "map", "zip", "zipx", "fold", "clone", "default", "iter_fold", "iter_rfold", "iter_clone",
+          "clone_from", "iter_clone_from"}
+\* Clone::clone_from(dst, src): operand 1 is the destination (overwritten), operand 2 the source (cloned)
+CloneFromOps == {"clone_from", "iter_clone_from"}
 \* index (1-based) of the operand element(s) callback k receives
 CbPos(name, n, k) == IF name = "iter_rfold" THEN n - k ELSE k + 1
 CbArgs(name, srcs, n, k) ==
